@@ -16,12 +16,12 @@ import (
 func vGenName(rng *vRand, write bool) string {
 	hashes := []string{vGoodHash, emptySha256, vGoodHash[:63], vGoodHash + "a", strings.ToUpper(vGoodHash), "zz" + vGoodHash[2:], ""}
 	sizes := []string{"1", "0", "42", "-1", "+7", "9223372036854775807", "9223372036854775808", "1e3", "", "12x", "007", "-0", "1_000"}
-	segs := []string{"inst", "a", "b", "", "blobs", "compressed-blobs", "uploads", "zstd", "ac", "cas", "ünï", "x y", "..", "identity", "deflate"}
+	segs := []string{"inst", "a", "b", "", "blobs", "compressed-blobs", "uploads", "zstd", "ac", "cas", "ünï", "x y", "..", "identity", "deflate", "team-uploads", "xuploads", "uploadsx", "myblobs", "blobs2", "compressed-blobsx"}
 	var parts []string
 	for i := 0; i < rng.Intn(4); i++ {
 		s := segs[rng.Intn(len(segs))]
 		if rng.Pct(70) {
-			s = []string{"inst", "a", "b", "ünï", "x y"}[rng.Intn(5)] // mostly harmless prefixes
+			s = []string{"inst", "a", "b", "ünï", "x y", "team-uploads", "xuploads", "myblobs", "nightly_blobs"}[rng.Intn(9)] // mostly harmless prefixes
 		}
 		parts = append(parts, s)
 	}
@@ -34,7 +34,11 @@ func vGenName(rng *vRand, write bool) string {
 		sz = sizes[rng.Intn(len(sizes))]
 	}
 	if write {
-		parts = append(parts, "uploads", "uuid-"+fmt.Sprint(rng.Intn(99)))
+		kw := "uploads"
+		if rng.Pct(8) {
+			kw = []string{"xuploads", "uploadsx", "myuploads", "upload"}[rng.Intn(4)]
+		}
+		parts = append(parts, kw, "uuid-"+fmt.Sprint(rng.Intn(99)))
 	}
 	switch rng.Intn(6) {
 	case 0, 1, 2:
